@@ -316,6 +316,57 @@ func (p stProp) Gen(r *Rand, idx int, tier string) Sx {
 				continue
 			}
 		}
+		// directed "age, then touch" scenario: an object is uploaded, aged into the old
+		// blocks by complete uploads of large objects, and then read or checked for
+		// existence: the refresh this triggers allocates space itself, and when the
+		// copy does not fit the block in use the allocation rotates the block list
+		// between the lookup of the old location and the copy.
+		if len(threads) == 0 && len(ops)+12 < nops && r.Chance(7) {
+			big := []int{}
+			for o := 0; o < nobj; o++ {
+				if len(objs[o])*2 >= bs && len(objs[o]) <= bs {
+					big = append(big, o)
+				}
+			}
+			if len(big) > 0 {
+				target := big[r.Intn(len(big))]
+				if r.Chance(40) {
+					target = r.Intn(nobj)
+				}
+				ti := inst()
+				up := func(o, i int) {
+					tid := nextTid
+					nextTid++
+					ops = append(ops, L(A(1), AI(tid), AI(o), AI(i)))
+					for _, c := range stSplit(r, objs[o]) {
+						ops = append(ops, L(A(2), AI(tid), LBytes(c)))
+					}
+					ops = append(ops, L(A(3), AI(tid), A(0)))
+				}
+				up(target, ti)
+				for k := cur + nw + r.Intn(old+2); k > 0; k-- {
+					o := big[r.Intn(len(big))]
+					if o == target && len(big) > 1 {
+						o = big[(r.Intn(len(big)-1)+1+indexOf(big, target))%len(big)]
+					}
+					up(o, inst())
+				}
+				for k := 1 + r.Intn(2); k > 0; k-- {
+					if r.Chance(65) {
+						tid := nextTid
+						nextTid++
+						ops = append(ops, L(A(4), AI(tid), AI(target), AI(ti)), L(A(5), AI(tid)))
+					} else {
+						di := ti
+						if !instKeys {
+							di = 0
+						}
+						ops = append(ops, L(A(6), L(L(AI(target), AI(di)))))
+					}
+				}
+				continue
+			}
+		}
 		// rotation burst while something is parked: complete uploads of large
 		// objects force PushBack/PopFront under a held reader, an in-flight
 		// writer or a slicer that dropped the lock
@@ -542,4 +593,13 @@ func (p stProp) Class(in, obs Sx) (string, bool) {
 		feat += "+evict"
 	}
 	return fmt.Sprintf("%s/%s/%s%s", p.flavor, access, alloc, feat), okReads > 0 && (concurrent > 0 || composite > 0 || notFoundAfterOK > 0)
+}
+
+func indexOf(l []int, x int) int {
+	for i, v := range l {
+		if v == x {
+			return i
+		}
+	}
+	return 0
 }
